@@ -25,16 +25,20 @@ SeqSet(s) == {s[j] : j \in 1..Len(s)}
 KeyOf(e) == <<e[1], e[2], e[3]>>         \* table entries are <<frame, slice, mip, w, h(, offset)>>
 
 \* --- constructor
+\* How many levels a new texture gets is the constructor's choice (this one stops when a side reaches
+\* 1, others go on to 1x1); what is fixed: a full table of frames x slices x levels 0..n-1 with the
+\* halved dimensions, and a declared count that says n.
 CtorStep(r) ==
     LET c == r.c
-        lv == MipLevels(c.w, c.h)
         got == {KeyOf(r.keys[j]) : j \in 1..Len(r.keys)}
-    IN IF got # Keys(c, lv) \/ Len(r.keys) # Cardinality(got) THEN Bad("ctor.keys", lv)
+        lv == Cardinality({k[3] : k \in got})
+    IN IF lv < 1 \/ lv > 1 + Max(Log2(c.w), Log2(c.h)) \/ got # Keys(c, lv) \/ Len(r.keys) # Cardinality(got) THEN Bad("ctor.keys", lv)
        ELSE IF \E j \in 1..Len(r.keys) : <<r.keys[j][4], r.keys[j][5]>> # KeyDim(c, KeyOf(r.keys[j])) THEN Bad("ctor.dims", 0)
        ELSE IF r.mip # lv THEN Bad("ctor.mipcount", lv)
        ELSE Good
 
 \* --- pixels of small images
+HoldsImg(f, raw, img) == Len(raw) = BytesPerPixel(f) * Len(img) /\ DecodeImg(f, raw) = QuantImg(f, img)
 PixAt(r, k) == r.pix[CHOOSE j \in 1..Len(r.pix) : r.pix[j].k = k]
 HasPix(r, k) == \E j \in 1..Len(r.pix) : r.pix[j].k = k
 RECURSIVE Expected(_, _)
@@ -47,8 +51,10 @@ Expected(r, k) ==
 PixVerdict(r) ==
     LET f == r.c.fmt
         saved == {j \in 1..Len(r.pix) : r.pix[j].saved}
-    IN IF \E j \in saved : r.pix[j].raw # EncodeImg(f, Expected(r, r.pix[j].k), 1)
-       THEN LET j == CHOOSE q \in saved : r.pix[q].raw # EncodeImg(f, Expected(r, r.pix[q].k), 1)
+    \* the stored bytes are judged by what they hold for a reader of the format (several byte
+    \* patterns may hold the same pixel, e.g. the unused byte of BGRX8888)
+    IN IF \E j \in saved : ~HoldsImg(f, r.pix[j].raw, Expected(r, r.pix[j].k))
+       THEN LET j == CHOOSE q \in saved : ~HoldsImg(f, r.pix[q].raw, Expected(r, r.pix[q].k))
             IN Bad("px.bytes", [k |-> r.pix[j].k, raw |-> EncodeImg(f, Expected(r, r.pix[j].k), 1)])
        ELSE IF \E j \in saved : r.pix[j].out # QuantImg(f, Expected(r, r.pix[j].k))
        THEN LET j == CHOOSE q \in saved : r.pix[q].out # QuantImg(f, Expected(r, r.pix[q].k))
@@ -61,6 +67,39 @@ SheetExp(ver, sh) ==
         [sh[s] EXCEPT !.frames = [q \in 1..Len(sh[s].frames) |->
             IF ver = 1 THEN sh[s].frames[q]
             ELSE [sh[s].frames[q] EXCEPT !.b = sh[s].frames[q].a, !.c = sh[s].frames[q].a, !.d = sh[s].frames[q].a]]]]
+
+\* --- the written header and resource table, as a reader of the format finds them: every resource
+\* ID exactly once (in any order) with the flag and the value or data block the object has, image and
+\* data blocks behind the header, inside the file and not overlapping.  Where the writer puts the
+\* blocks and in which order it lists the entries is its own choice; before 7.3 the format fixes it
+\* (thumbnail right behind the header, image block right behind the thumbnail).
+NoEntry == [id |-> "", flags |-> 0, data |-> 0, blk |-> [size |-> 0 - 1, hex |-> ""]]
+EntryOf(h, id) == IF \E j \in 1..Len(h.entries) : h.entries[j].id = id
+                  THEN h.entries[CHOOSE j \in 1..Len(h.entries) : h.entries[j].id = id] ELSE NoEntry
+LowObs(h, c) == IF HasTable(c) THEN EntryOf(h, IdLow).data ELSE h.hsize
+HiObs(h, c) == IF HasTable(c) THEN EntryOf(h, IdHigh).data ELSE h.hsize + LowSize(c)
+ExpIds(c) == {c.res[j].id : j \in 1..Len(c.res)} \cup {IdLow, IdHigh} \cup (IF c.sheet.has THEN {IdSheet} ELSE {})
+HdrBlocks(h, c) ==
+    {<<LowObs(h, c), LowSize(c)>>, <<HiObs(h, c), HiSize(c, c.mip)>>}
+    \cup (IF HasTable(c) THEN {<<EntryOf(h, c.res[j].id).data, 4 + c.res[j].len>> : j \in {q \in 1..Len(c.res) : ~c.res[q].inline}}
+                               \cup (IF c.sheet.has THEN {<<EntryOf(h, IdSheet).data, 4 + SheetLen(c.sheet)>>} ELSE {})
+          ELSE {})
+HdrVerdict(h, c, pfx) ==
+    LET blocks == {b \in HdrBlocks(h, c) : b[2] > 0} IN
+    IF HasTable(c) /\ (h.nres # NRes(c) \/ Len(h.entries) # NRes(c)
+                       \/ {h.entries[j].id : j \in 1..Len(h.entries)} # ExpIds(c)) THEN Bad(pfx \o ".table", ExpIds(c))
+    ELSE IF ~HasTable(c) /\ Len(h.entries) # 0 THEN Bad(pfx \o ".table", {})
+    ELSE IF h.hsize < 80 + (IF HasTable(c) THEN 8 * NRes(c) ELSE 0) THEN Bad(pfx \o ".hsize", HeaderSize(c))
+    ELSE IF HasTable(c) /\ \E j \in 1..Len(c.res) :
+                LET x == c.res[j] e == EntryOf(h, x.id) IN
+                IF x.inline THEN e.flags # SetBit1(x.flags) \/ e.data # x.val
+                ELSE e.flags # ClearBit1(x.flags) \/ e.blk.size # x.len \/ e.blk.hex # x.hex
+         THEN Bad(pfx \o ".entries", c.res)
+    ELSE IF HasTable(c) /\ c.sheet.has /\ (Bit1(EntryOf(h, IdSheet).flags) = 1 \/ EntryOf(h, IdSheet).blk.size # SheetLen(c.sheet))
+         THEN Bad(pfx \o ".entries", SheetLen(c.sheet))
+    ELSE IF \E b \in blocks : b[1] < h.hsize \/ b[1] + b[2] > h.len THEN Bad(pfx \o ".blocks", h.hsize)
+    ELSE IF \E a \in blocks, b \in blocks : a # b /\ a[1] < b[1] + b[2] /\ b[1] < a[1] + a[2] THEN Bad(pfx \o ".blocks", 0)
+    ELSE Good
 
 RtStep(r) ==
     LET c == r.c
@@ -75,23 +114,23 @@ RtStep(r) ==
                 # <<e.minor, e.w, e.h, e.frames, e.fmt, e.low, e.lw, e.lh, e.depth>> THEN Bad("hdr.fields", e)
        ELSE IF h.mip # e.mip THEN Bad("hdr.mip", e.mip)
        ELSE IF h.meta # r.meta THEN Bad("hdr.meta", r.meta)
-       ELSE IF h.hsize # e.hsize \/ h.nres # e.nres THEN Bad("hdr.hsize", e.hsize)
-       ELSE IF h.entries # e.entries THEN Bad("hdr.entries", e.entries)
-       ELSE IF h.len # e.len THEN Bad("hdr.len", e.len)
+       ELSE IF ~HdrVerdict(h, c, "hdr").ok THEN HdrVerdict(h, c, "hdr")
        ELSE IF <<r.out.c.w, r.out.c.h, r.out.c.frames, r.out.c.depth, r.out.c.cube, r.out.c.minor, r.out.c.fmt,
                  r.out.c.low, r.out.c.lw, r.out.c.lh, r.out.c.mip>>
                # <<rb.w, rb.h, rb.frames, rb.depth, rb.cube, rb.minor, rb.fmt, rb.low, rb.lw, rb.lh, rb.mip>>
             THEN Bad("rt.fields", rb)
        ELSE IF r.out.meta # r.meta THEN Bad("rt.meta", r.meta)
-       ELSE IF r.out.c.res # rb.res THEN Bad("rt.resources", rb.res)
+       ELSE IF SeqSet(r.out.c.res) # SeqSet(rb.res) \/ Len(r.out.c.res) # Len(rb.res) THEN Bad("rt.resources", rb.res)
        ELSE IF r.out.c.sheet.has # rb.sheet.has THEN Bad("rt.sheet", rb.sheet)
-       ELSE IF rb.sheet.has /\ r.out.sheet # SheetExp(c.sheet.ver, r.sheet) THEN Bad("rt.sheet", SheetExp(c.sheet.ver, r.sheet))
+       ELSE IF rb.sheet.has /\ (SeqSet(r.out.sheet) # SeqSet(SheetExp(c.sheet.ver, r.sheet)) \/ Len(r.out.sheet) # Len(r.sheet))
+            THEN Bad("rt.sheet", SheetExp(c.sheet.ver, r.sheet))
        ELSE IF got # Keys(c, lv) \/ Len(r.out.keys) # Cardinality(got)
             THEN (IF got = Keys(c, lv - 1) /\ c.mip = lv - 1 THEN Bad("rt.keys.lastlevel", lv) ELSE Bad("rt.keys", lv))
        ELSE IF \E j \in 1..Len(r.out.keys) : <<r.out.keys[j][4], r.out.keys[j][5]>> # KeyDim(c, KeyOf(r.out.keys[j]))
             THEN Bad("rt.dims", 0)
-       ELSE IF \E j \in 1..Len(r.out.keys) : r.out.keys[j][6] # HiOff(c) + KeyOffset(c, c.mip, KeyOf(r.out.keys[j]))
-            THEN Bad("rt.offsets", HiOff(c))
+       \* inside the image block the format fixes the place of every frame / face / slice / mipmap
+       ELSE IF \E j \in 1..Len(r.out.keys) : r.out.keys[j][6] # HiObs(h, c) + KeyOffset(c, c.mip, KeyOf(r.out.keys[j]))
+            THEN Bad("rt.offsets", HiObs(h, c))
        ELSE Good
 \* the thumbnail of a texture whose thumbnail was never given pixels (new, or erased): the average
 \* of the level of twice its size (judged when that level's pixels are logged), else the blank image
@@ -101,7 +140,7 @@ ThumbRt(r) ==
         exp == IF HasMatch(c) THEN Average2x2(Expected(r, src), PixAt(r, src).w, PixAt(r, src).h, c.lw, c.lh)
                ELSE BlankImg(c.lw * c.lh)
     IN IF c.low = "NONE" \/ r.exc # "" \/ (HasMatch(c) /\ ~HasPix(r, src)) THEN Good
-       ELSE IF r.low2 # EncodeImg(c.low, exp, 1) THEN Bad("rt.thumb.bytes", EncodeImg(c.low, exp, 1))
+       ELSE IF ~HoldsImg(c.low, r.low2, exp) THEN Bad("rt.thumb.bytes", EncodeImg(c.low, exp, 1))
        ELSE IF r.lowout # QuantImg(c.low, exp) THEN Bad("rt.thumb.out", QuantImg(c.low, exp))
        ELSE Good
 \* a record is judged clause by clause; structure first, then pixels, then the re-save
@@ -208,21 +247,22 @@ HistStep(r) ==
         got == {KeyOf(r.keys[j]) : j \in 1..Len(r.keys)}
         FS == FinalS(r)
         fin == FS.imgs
-        badraw == {j \in 1..Len(r.pix) : r.pix[j].raw # EncodeImg(f, fin[Idx(r, r.pix[j].k)], 1)}
+        badraw == {j \in 1..Len(r.pix) : ~HoldsImg(f, r.pix[j].raw, fin[Idx(r, r.pix[j].k)])}
         badout == {j \in 1..Len(r.pix) : r.pix[j].out # QuantImg(f, fin[Idx(r, r.pix[j].k)])}
     IN IF ~OpsOK(lv0, r.ops, 1) THEN Bad("hist.input", 0)
        ELSE IF r.exc # "" THEN Bad("hist.raised", r.exc)
        ELSE IF r.hdr.err # "" THEN Bad("hist.header", r.hdr.err)
-       ELSE IF <<r.hdr.minor, r.hdr.w, r.hdr.h, r.hdr.frames, r.hdr.fmt, r.hdr.mip, r.hdr.depth, r.hdr.hsize, r.hdr.entries, r.hdr.len>>
-               # <<e.minor, e.w, e.h, e.frames, e.fmt, e.mip, e.depth, e.hsize, e.entries, e.len>> THEN Bad("hist.header", e)
+       ELSE IF <<r.hdr.minor, r.hdr.w, r.hdr.h, r.hdr.frames, r.hdr.fmt, r.hdr.mip, r.hdr.depth>>
+               # <<e.minor, e.w, e.h, e.frames, e.fmt, e.mip, e.depth>> THEN Bad("hist.header", e)
+       ELSE IF ~HdrVerdict(r.hdr, c, "hist").ok THEN HdrVerdict(r.hdr, c, "hist")
        ELSE IF got # Keys(c, c.mip) \/ Len(r.keys) # Cardinality(got) \/ Len(r.pix) # Len(r.keys) THEN Bad("hist.keys", c.mip)
        ELSE IF \E j \in 1..Len(r.keys) : <<r.keys[j][4], r.keys[j][5]>> # KeyDim(c, KeyOf(r.keys[j]))
-                                          \/ r.keys[j][6] # HiOff(c) + KeyOffset(c, c.mip, KeyOf(r.keys[j])) THEN Bad("hist.layout", HiOff(c))
+                                          \/ r.keys[j][6] # HiObs(r.hdr, c) + KeyOffset(c, c.mip, KeyOf(r.keys[j])) THEN Bad("hist.layout", HiObs(r.hdr, c))
        ELSE IF badraw # {} THEN LET j == CHOOSE q \in badraw : TRUE IN
                 Bad("hist.bytes", [k |-> r.pix[j].k, raw |-> EncodeImg(f, fin[Idx(r, r.pix[j].k)], 1)])
        ELSE IF badout # {} THEN LET j == CHOOSE q \in badout : TRUE IN
                 Bad("hist.out", [k |-> r.pix[j].k, out |-> QuantImg(f, fin[Idx(r, r.pix[j].k)])])
-       ELSE IF c.low # "NONE" /\ r.low2 # EncodeImg(c.low, FS.th.img, 1) THEN Bad("hist.thumb.bytes", EncodeImg(c.low, FS.th.img, 1))
+       ELSE IF c.low # "NONE" /\ ~HoldsImg(c.low, r.low2, FS.th.img) THEN Bad("hist.thumb.bytes", EncodeImg(c.low, FS.th.img, 1))
        ELSE IF c.low # "NONE" /\ r.lowout # QuantImg(c.low, FS.th.img) THEN Bad("hist.thumb.out", QuantImg(c.low, FS.th.img))
        ELSE Good
 
